@@ -219,6 +219,19 @@ def op_roundtrip(pol, js, enc, d, linesep, table):
     return res + ' | ' + rd
 
 
+def op_likebatch(js, table):
+    rows = dec_table(table)
+    out = []
+    warnings = []
+    rbql.query_table('select like(a1, a2)', rows, out, warnings)
+    res = ''.join('1' if r[0] is True else ('0' if r[0] is False else '?') for r in out)
+    if hasattr(rbql_engine, 'like_to_regex'):
+        direct = ''.join('1' if re.match(rbql_engine.like_to_regex(r[1]), r[0]) is not None else '0' for r in rows)
+        if direct != res:
+            return 'INCONSISTENT query=%s like_to_regex=%s' % (res, direct)
+    return res
+
+
 def op_readboth(pol, enc, hdr, modi, d, comment, text):
     t = dec_str(text)
     data = t.encode('utf-8' if enc == 'utf-8' else 'latin-1')
@@ -226,7 +239,7 @@ def op_readboth(pol, enc, hdr, modi, d, comment, text):
     return read_result(stream, encoding, pol, hdr, modi, 1024, dec_str(d), None if comment == '~' else dec_str(comment))
 
 
-OPS = {'readboth': op_readboth, 'write': op_write, 'roundtrip': op_roundtrip, 'split': op_split, 'quote': op_quote, 'unquote': op_unquote, 'readpy': op_readpy, 'readpyall': op_readpyall}
+OPS = {'readboth': op_readboth, 'likebatch': op_likebatch, 'write': op_write, 'roundtrip': op_roundtrip, 'split': op_split, 'quote': op_quote, 'unquote': op_unquote, 'readpy': op_readpy, 'readpyall': op_readpyall}
 
 
 def register(name, fn):
